@@ -163,6 +163,32 @@ def build():
                params=RIP, ret='bool', cls='MoveGen', is_static=True, rules=[(PLAY, 'legal = ghost_played_safe;', 1)], epilogue='\n    return legal;\n', within='MoveGen::removeIllegal', within_kw=dict(nparams=2))
     U.fragment(MG_C, 'MoveGen_removeIllegal_verdict_nic', r'bool legal;', r'if \(legal\)\s*moveList\[length\+\+\] = m;', start_nth=(1, 2), end_first=True,
                params=RIP, ret='bool', cls='MoveGen', is_static=True, rules=[(PLAY, 'legal = ghost_played_safe;', 1)], epilogue='\n    return legal;\n', within='MoveGen::removeIllegal', within_kw=dict(nparams=2))
+    # MoveGen::pseudoLegalCapturesAndChecks<wtm>: head (discovered-check masks), sliders, king, knights, pawns + composition.
+    # Decided for it: only pseudo-legal moves, none twice, and every move of the capture class is present; "every checking move is present" is NOT.
+    CC_KW = dict(within='MoveGen::pseudoLegalCapturesAndChecks', within_kw=dict(nparams=2, template=True))
+    D_HEAD, D_SL, D_KING, D_KN, D_PAWNS = (r'const Square oKingSq = pos\.getKingSq\(!wtm\);', r'U64 squares = pos\.pieceTypeBB\(MyColor::QUEEN\);', r'\{\s*Square sq = pos\.getKingSq\(wtm\);',
+                                           r'U64 knights = pos\.pieceTypeBB\(MyColor::KNIGHT\);', r'const U64 pawns = ')
+    cc = find_function(U.src(MG_C), 'MoveGen::pseudoLegalCapturesAndChecks', nparams=2, template=True)
+    mh = re.search(D_HEAD, cc.body)
+    if not mh or norm(cc.body[:mh.start()]) != 'using MyColor = ColorTraits<wtm>; const U64 occupied = pos.occupiedBB();':
+        raise ExtractError('tiling pin changed: statements of MoveGen::pseudoLegalCapturesAndChecks before the discovered-check masks')
+    PO = [('Position', 'pos', True)]; ML = [('MoveList', 'moveList', True)]; OCC = [('U64', 'occupied', False)]; DISC = [('U64', 'discovered', False)]
+    for sfx, val in (('_w', 'true'), ('_b', 'false')):
+        kw = dict(cls='MoveGen', is_static=True, tsubst={'wtm': val}, prologue=USING1, **CC_KW)
+        fh = U.fragment(MG_C, 'MoveGen_capturesAndChecks_head' + sfx, D_HEAD, D_SL,
+                        params=PO + OCC + [('Square', 'out_oksq', True), ('U64', 'out_disc', True), ('U64', 'out_kr', True), ('U64', 'out_kb', True)],
+                        epilogue='\n    out_oksq = oKingSq; out_disc = discovered; out_kr = kRookAtk; out_kb = kBishAtk;\n', **kw)
+        fs = U.fragment(MG_C, 'MoveGen_capturesAndChecks_sliders' + sfx, D_SL, D_KING, params=PO + ML + OCC + DISC + [('U64', 'kRookAtk', False), ('U64', 'kBishAtk', False)], **kw)
+        fk = U.fragment(MG_C, 'MoveGen_capturesAndChecks_king' + sfx, D_KING, D_KN, params=PO + ML + OCC + DISC, **kw)
+        fn = U.fragment(MG_C, 'MoveGen_capturesAndChecks_knights' + sfx, D_KN, D_PAWNS, params=PO + ML + [('Square', 'oKingSq', False)] + DISC, **kw)
+        fp = U.fragment(MG_C, 'MoveGen_capturesAndChecks_pawns' + sfx, D_PAWNS, None, params=PO + ML + OCC + [('Square', 'oKingSq', False)] + DISC, **kw)
+        for fr in (fh, fs, fk, fn, fp):
+            U.tr.classes['MoveGen'].methods.setdefault((fr.cname, len(fr.params), False), {})[''] = fr
+        U.fragment(MG_C, 'MoveGen_capturesAndChecks_tiled' + sfx, r'const U64 occupied = pos\.occupiedBB\(\);', D_HEAD, params=PO + ML,
+                   cls='MoveGen', is_static=True, tsubst={'wtm': val},
+                   epilogue=('\n    Square oKingSq; U64 discovered = 0; U64 kRookAtk = 0; U64 kBishAtk = 0;\n'
+                             '    %s(pos, occupied, oKingSq, discovered, kRookAtk, kBishAtk);\n    %s(pos, moveList, occupied, discovered, kRookAtk, kBishAtk);\n'
+                             '    %s(pos, moveList, occupied, discovered);\n    %s(pos, moveList, oKingSq, discovered);\n    %s(pos, moveList, occupied, oKingSq, discovered);\n') % (fh.cname, fs.cname, fk.cname, fn.cname, fp.cname), **CC_KW)
     for gen in ('pseudoLegalMoves', 'checkEvasions', 'pseudoLegalCaptures', 'pseudoLegalCapturesAndChecks'):
         P(MG_C, 'MoveGen::' + gen, nparams=2, template=True, tsubst={'wtm': 'true'}, suffix='_w', as_static=True)
         P(MG_C, 'MoveGen::' + gen, nparams=2, template=True, tsubst={'wtm': 'false'}, suffix='_b', as_static=True)
@@ -334,6 +360,17 @@ static _Bool spec_capture_class(const struct Position* p, const struct Move* m) 
     if (p->squares[m->to_] != Piece_EMPTY) return 1;
     return (pc == Piece_WPAWN || pc == Piece_BPAWN) && m->to_ == p->epSquare && (m->to_ & 7) != (m->from_ & 7); }
 #define spec_them(p) ((p)->whiteMove ? spec_black(p) : spec_white(p))
+/* the masks computed at the head of pseudoLegalCapturesAndChecks (glue of the composition: they only select which quiet moves are added) */
+#define spec_oksq(p) spec_king_sq((p)->squares, !(p)->whiteMove)
+static U64 spec_cc_kr(const struct Position* p) { return spec_rook_rays(spec_oksq(p), spec_occ(p->squares)); }
+static U64 spec_cc_kb(const struct Position* p) { return spec_bishop_rays(spec_oksq(p), spec_occ(p->squares)); }
+static U64 spec_cc_disc(const struct Position* p) {
+    int k = spec_oksq(p); U64 occ = spec_occ(p->squares), kr = spec_rook_rays(k, occ), kb = spec_bishop_rays(k, occ), d = 0;
+    int q = p->whiteMove ? Piece_WQUEEN : Piece_BQUEEN, r = p->whiteMove ? Piece_WROOK : Piece_BROOK, b = p->whiteMove ? Piece_WBISHOP : Piece_BBISHOP;
+    U64 qr = 0, qb = 0; for (int s = 0; s < 64; s++) { if (p->squares[s] == q || p->squares[s] == r) qr |= BITM(s); if (p->squares[s] == q || p->squares[s] == b) qb |= BITM(s); }
+    if ((spec_rook_rays(k, occ & ~kr) & qr) != 0) d |= kr;
+    if ((spec_bishop_rays(k, occ & ~kb) & qb) != 0) d |= kb;
+    return d; }
 #define DOMAIN_COUNTS(p) (spec_popcount((p)->whiteBB_) <= 16 && spec_popcount((p)->blackBB_) <= 16)
 #pragma CPROVER check pop
 #ifdef COMPOSE_UF
@@ -364,6 +401,12 @@ _Bool __CPROVER_uninterpreted_capture_class(const struct Position*, int, int, in
 #undef spec_them
 #define spec_them(p) __CPROVER_uninterpreted_them(p)
 _Bool __CPROVER_uninterpreted_domain_counts(const struct Position*);
+U64 __CPROVER_uninterpreted_cc_kr(const struct Position*); U64 __CPROVER_uninterpreted_cc_kb(const struct Position*); U64 __CPROVER_uninterpreted_cc_disc(const struct Position*);
+#define spec_cc_kr(p) __CPROVER_uninterpreted_cc_kr(p)
+#define spec_cc_kb(p) __CPROVER_uninterpreted_cc_kb(p)
+#define spec_cc_disc(p) __CPROVER_uninterpreted_cc_disc(p)
+U64 __CPROVER_uninterpreted_knight_att(int);
+#define spec_knight_att(s) __CPROVER_uninterpreted_knight_att(s)
 #undef DOMAIN_COUNTS
 #define DOMAIN_COUNTS(p) __CPROVER_uninterpreted_domain_counts(p)
 #endif
@@ -612,6 +655,53 @@ CONTRACTS['MoveGen_removeIllegal_verdict_nic'] = {
     'requires': _RIPRE + ['!spec_in_check(pos)', 'kingAtks == %s' % _RAYS],
     'assigns': [], 'ensures': ['__CPROVER_return_value == spec_leaves_king_safe(pos, m)']}
 
+for _sfx, _me in (('_w', 1), ('_b', 0)):
+    _K, _Q, _R, _B, _N, _P = (('Piece_WKING', 'Piece_WQUEEN', 'Piece_WROOK', 'Piece_WBISHOP', 'Piece_WKNIGHT', 'Piece_WPAWN') if _me else
+                              ('Piece_BKING', 'Piece_BQUEEN', 'Piece_BROOK', 'Piece_BBISHOP', 'Piece_BKNIGHT', 'Piece_BPAWN'))
+    _pre0 = _EVPRE + ['pos->whiteMove == %d' % _me]
+    _mpre = _pre0 + ['__CPROVER_is_fresh(moveList, sizeof(*moveList))', 'GM_OK', '0 <= ghost_hits && ghost_hits < 1000']
+    _occ = ['occupied == spec_occ(pos->squares)']
+    def _ccpost(cond):
+        o = '__CPROVER_old(ghost_hits)'
+        return ['ghost_hits >= %s && ghost_hits <= %s + 1' % (o, o),
+                # only pseudo-legal moves of the section's piece kinds, none twice
+                'ghost_hits == %s + 1 ==> ((%s) && spec_pseudo_legal(pos, &ghost_m))' % (o, cond),
+                # every capture / en-passant capture / queen-or-knight promotion of these kinds is present
+                '((%s) && spec_capture_class(pos, &ghost_m)) ==> ghost_hits == %s + 1' % (cond, o)]
+    _DISCB = '((discovered >> ghost_m.from_) & 1)'
+    def _flt(extra):
+        return '(%s ? ~0ULL : (spec_them(pos) | %s))' % (_DISCB, extra)
+    _gsl = ['ghost_Q0 == pos->pieceTypeBB_[%s] && ghost_R0 == pos->pieceTypeBB_[%s] && ghost_B0 == pos->pieceTypeBB_[%s]' % (_Q, _R, _B),
+            'ghost_tQ == spec_gm_slider(pos, Piece_WQUEEN, %s)' % _flt('kRookAtk | kBishAtk'), 'ghost_tR == spec_gm_slider(pos, Piece_WROOK, %s)' % _flt('kRookAtk'),
+            'ghost_tB == spec_gm_slider(pos, Piece_WBISHOP, %s)' % _flt('kBishAtk')]
+    _gkn = ['ghost_N0 == pos->pieceTypeBB_[%s]' % _N, 'ghost_tN == spec_gm_slider(pos, Piece_WKNIGHT, %s)' % _flt('spec_knight_att(oKingSq)')]
+    def _lpe(var, st, fl):
+        # contribution of this loop relative to the hit count at its own entry (no snapshot of the entry value in the precondition)
+        return {'assigns': '%s, moveList->size, ghost_hits' % var,
+                'invariant': ['(%s & ~%s) == 0' % (var, st), 'ghost_hits == __CPROVER_loop_entry(ghost_hits) + (((((%s & ~%s) >> ghost_m.from_) & 1) && %s) ? 1 : 0)' % (st, var, fl)]}
+    CONTRACTS['MoveGen_capturesAndChecks_head' + _sfx] = {
+        'requires': _pre0 + _occ + ['__CPROVER_is_fresh(out_oksq, sizeof(*out_oksq))', '__CPROVER_is_fresh(out_disc, sizeof(U64))', '__CPROVER_is_fresh(out_kr, sizeof(U64))', '__CPROVER_is_fresh(out_kb, sizeof(U64))'],
+        'assigns': ['*out_oksq', '*out_disc', '*out_kr', '*out_kb'],
+        'ensures': ['*out_oksq == spec_oksq(pos)', '0 <= *out_oksq && *out_oksq < 64', '*out_kr == spec_cc_kr(pos) && *out_kb == spec_cc_kb(pos) && *out_disc == spec_cc_disc(pos)']}
+    CONTRACTS['MoveGen_capturesAndChecks_sliders' + _sfx] = {
+        'requires': _mpre + _occ + _gsl, 'assigns': ['moveList->size', 'ghost_hits'],
+        'ensures': _ccpost('GM_FROM_IS(pos, %s) || GM_FROM_IS(pos, %s) || GM_FROM_IS(pos, %s)' % (_Q, _R, _B)),
+        'loops': {0: _lpe('squares', 'ghost_Q0', 'ghost_tQ'), 1: _lpe('squares', 'ghost_R0', 'ghost_tR'), 2: _lpe('squares', 'ghost_B0', 'ghost_tB')}}
+    CONTRACTS['MoveGen_capturesAndChecks_king' + _sfx] = {
+        'requires': _mpre + _occ, 'assigns': ['moveList->size', 'ghost_hits'], 'ensures': _ccpost('GM_FROM_IS(pos, %s)' % _K)}
+    CONTRACTS['MoveGen_capturesAndChecks_knights' + _sfx] = {
+        'requires': _mpre + ['0 <= oKingSq && oKingSq < 64'] + _gkn,
+        'assigns': ['moveList->size', 'ghost_hits'], 'ensures': _ccpost('GM_FROM_IS(pos, %s)' % _N),
+        'loops': {0: _lpe('knights', 'ghost_N0', 'ghost_tN')}}
+    CONTRACTS['MoveGen_capturesAndChecks_pawns' + _sfx] = {
+        'requires': _mpre + _occ + ['0 <= oKingSq && oKingSq < 64'], 'assigns': ['moveList->size', 'ghost_hits'], 'ensures': _ccpost('GM_FROM_IS(pos, %s)' % _P)}
+    def _sub(r):
+        return r.replace('kRookAtk', 'spec_cc_kr(pos)').replace('kBishAtk', 'spec_cc_kb(pos)').replace('discovered', 'spec_cc_disc(pos)').replace('oKingSq', 'spec_oksq(pos)')
+    CONTRACTS['MoveGen_capturesAndChecks_tiled' + _sfx] = {
+        # the ghost flags of the slider and knight sections are defined for the masks the head computes (free ghost variables)
+        'requires': _pre0 + ['__CPROVER_is_fresh(moveList, sizeof(*moveList))', 'GM_OK', '0 <= ghost_hits && ghost_hits < 900'] + [_sub(r) for r in _gsl + _gkn],
+        'assigns': ['moveList->size', 'ghost_hits'], 'ensures': _ccpost('GM_FROM_OWN(pos)')}
+
 HARNESS = posunit.HARNESS.split('void h_setPiece')[0] + r'''
 void h_sqAttacked_w(void) { struct Position* p; int sq; U64 occ; havoc_tables(); MoveGen_sqAttacked_w(p, sq, occ); CANARY_POINT; }
 void h_sqAttacked_b(void) { struct Position* p; int sq; U64 occ; havoc_tables(); MoveGen_sqAttacked_b(p, sq, occ); CANARY_POINT; }
@@ -653,6 +743,18 @@ void h_pc_tiled_w(void) { struct Position* p; struct MoveList* ml; havoc_tables(
 void h_pc_tiled_b(void) { struct Position* p; struct MoveList* ml; havoc_tables(); havoc_gm(); MoveGen_pseudoLegalCaptures_tiled_b(p, ml); CANARY_POINT; }
 void h_ri_ic(void) { struct Position* p; struct Move* m; int k, e; U64 a; havoc_tables(); ghost_played_safe = (nondet_int() != 0); MoveGen_removeIllegal_verdict_ic(p, m, k, a, e); CANARY_POINT; }
 void h_ri_nic(void) { struct Position* p; struct Move* m; int k, e; U64 a; havoc_tables(); ghost_played_safe = (nondet_int() != 0); MoveGen_removeIllegal_verdict_nic(p, m, k, a, e); CANARY_POINT; }
+void h_cc_head_w(void) { struct Position* p; U64 occ; Square* a; U64 *b, *c, *d; havoc_tables(); MoveGen_capturesAndChecks_head_w(p, occ, a, b, c, d); CANARY_POINT; }
+void h_cc_sliders_w(void) { struct Position* p; struct MoveList* ml; U64 occ, di, kr, kb; havoc_tables(); havoc_gm(); MoveGen_capturesAndChecks_sliders_w(p, ml, occ, di, kr, kb); CANARY_POINT; }
+void h_cc_king_w(void) { struct Position* p; struct MoveList* ml; U64 occ, di; havoc_tables(); havoc_gm(); MoveGen_capturesAndChecks_king_w(p, ml, occ, di); CANARY_POINT; }
+void h_cc_knights_w(void) { struct Position* p; struct MoveList* ml; int ok; U64 di; havoc_tables(); havoc_gm(); MoveGen_capturesAndChecks_knights_w(p, ml, ok, di); CANARY_POINT; }
+void h_cc_pawns_w(void) { struct Position* p; struct MoveList* ml; int ok; U64 occ, di; havoc_tables(); havoc_gm(); MoveGen_capturesAndChecks_pawns_w(p, ml, occ, ok, di); CANARY_POINT; }
+void h_cc_tiled_w(void) { struct Position* p; struct MoveList* ml; havoc_tables(); havoc_gm(); MoveGen_capturesAndChecks_tiled_w(p, ml); CANARY_POINT; }
+void h_cc_head_b(void) { struct Position* p; U64 occ; Square* a; U64 *b, *c, *d; havoc_tables(); MoveGen_capturesAndChecks_head_b(p, occ, a, b, c, d); CANARY_POINT; }
+void h_cc_sliders_b(void) { struct Position* p; struct MoveList* ml; U64 occ, di, kr, kb; havoc_tables(); havoc_gm(); MoveGen_capturesAndChecks_sliders_b(p, ml, occ, di, kr, kb); CANARY_POINT; }
+void h_cc_king_b(void) { struct Position* p; struct MoveList* ml; U64 occ, di; havoc_tables(); havoc_gm(); MoveGen_capturesAndChecks_king_b(p, ml, occ, di); CANARY_POINT; }
+void h_cc_knights_b(void) { struct Position* p; struct MoveList* ml; int ok; U64 di; havoc_tables(); havoc_gm(); MoveGen_capturesAndChecks_knights_b(p, ml, ok, di); CANARY_POINT; }
+void h_cc_pawns_b(void) { struct Position* p; struct MoveList* ml; int ok; U64 occ, di; havoc_tables(); havoc_gm(); MoveGen_capturesAndChecks_pawns_b(p, ml, occ, ok, di); CANARY_POINT; }
+void h_cc_tiled_b(void) { struct Position* p; struct MoveList* ml; havoc_tables(); havoc_gm(); MoveGen_capturesAndChecks_tiled_b(p, ml); CANARY_POINT; }
 void h_occupiedBB(void) { struct Position* p; havoc_tables(); Position_occupiedBB(p); CANARY_POINT; }
 void h_evasion_head_w(void) { struct Position* p; U64 occ; havoc_tables(); MoveGen_checkEvasions_head_w(p, occ); CANARY_POINT; }
 void h_evasion_head_b(void) { struct Position* p; U64 occ; havoc_tables(); MoveGen_checkEvasions_head_b(p, occ); CANARY_POINT; }
@@ -664,7 +766,7 @@ void h_checkEvasions_w(void) { struct Position* p; struct MoveList* ml; havoc_ta
 void h_checkEvasions_b(void) { struct Position* p; struct MoveList* ml; havoc_tables(); havoc_gm(); MoveGen_checkEvasions_b(p, ml); CANARY_POINT; }
 '''
 UNWIND = dict(posunit.UNWIND)
-UNWIND.update({'spec_king_att': 4, 'spec_knight_att': 6, 'spec_ray': 9, 'spec_between': 9, 'spec_occ': 65, 'spec_attacked_occ': 65, 'spec_king_sq': 65,
+UNWIND.update({'spec_cc_disc': 65, 'spec_king_att': 4, 'spec_knight_att': 6, 'spec_ray': 9, 'spec_between': 9, 'spec_occ': 65, 'spec_attacked_occ': 65, 'spec_king_sq': 65,
                'spec_board_after': 65, 'same_board': 65, 'spec_checkers': 65})
 _ATT = ('BitBoard_kingAttacks', 'BitBoard_knightAttacks', 'BitBoard_wPawnAttacks', 'BitBoard_bPawnAttacks', 'BitBoard_rookAttacks', 'BitBoard_bishopAttacks')
 GROUPS = [
@@ -706,6 +808,19 @@ for _sfx in ('_w', '_b'):
 for _n in ('ic', 'nic'):
     GROUPS.append(Group('removeIllegal_verdict_' + _n, 'h_ri_' + _n, enforce='MoveGen_removeIllegal_verdict_' + _n, min_props=5, timeout=3000,
                         cases=('case', [('CASE_RI=%d' % pt,) for pt in range(6)])))
+for _sfx in ('_w', '_b'):
+    _pf = 'MoveGen_capturesAndChecks_'
+    _PAWNH = ('MoveGen_addPawnDoubleMovesByMask', 'MoveGen_addPawnMovesByMask_w', 'MoveGen_addPawnMovesByMask_b')
+    GROUPS.append(Group('capturesAndChecks_head' + _sfx, 'h_cc_head' + _sfx, enforce=_pf + 'head' + _sfx, replace=_ATT + ('BitBoard_firstSquare',), min_props=5, timeout=3000))
+    GROUPS.append(Group('capturesAndChecks_sliders' + _sfx, 'h_cc_sliders' + _sfx, enforce=_pf + 'sliders' + _sfx, replace=_ATT + ('MoveGen_addMovesByMask', 'BitBoard_extractSquare'),
+                        loop_contracts=True, min_props=10, expect_loop_props=3, timeout=3000))
+    GROUPS.append(Group('capturesAndChecks_king' + _sfx, 'h_cc_king' + _sfx, enforce=_pf + 'king' + _sfx, replace=_ATT + ('MoveGen_addMovesByMask', 'MoveList_addMove', 'MoveGen_sqAttacked2', 'BitBoard_firstSquare'), min_props=10, timeout=3000))
+    GROUPS.append(Group('capturesAndChecks_knights' + _sfx, 'h_cc_knights' + _sfx, enforce=_pf + 'knights' + _sfx, replace=_ATT + ('MoveGen_addMovesByMask', 'BitBoard_extractSquare'),
+                        loop_contracts=True, min_props=10, expect_loop_props=1, timeout=3000))
+    GROUPS.append(Group('capturesAndChecks_pawns' + _sfx, 'h_cc_pawns' + _sfx, enforce=_pf + 'pawns' + _sfx, replace=_ATT + _PAWNH, min_props=10, timeout=3000))
+    GROUPS.append(Group('capturesAndChecks_tiled' + _sfx, 'h_cc_tiled' + _sfx, enforce=_pf + 'tiled' + _sfx, defines=('COMPOSE_UF=1',),
+                        replace=('Position_occupiedBB',) + tuple(_pf + x + _sfx for x in ('head', 'sliders', 'king', 'knights', 'pawns')), min_props=5, timeout=3000,
+                        note='composition of the five fragment contracts; spec functions uninterpreted (COMPOSE_UF)'))
 GROUPS.append(Group('lemma_pl_own', 'h_lemma_pl_own', min_props=1))
 GROUPS.append(Group('occupiedBB', 'h_occupiedBB', enforce='Position_occupiedBB', min_props=2))
 for _sfx in ('_w', '_b'):
@@ -731,6 +846,7 @@ CLAIMED = ['sqAttacked_w', 'sqAttacked_b', 'sqAttacked3', 'sqAttacked2', 'inChec
 for _sfx in ('_w', '_b'):
     CLAIMED += ['pseudoLegalMoves_%s%s' % (x, _sfx) for x in ('sliders', 'king', 'knights', 'pawns', 'tiled')]
     CLAIMED += ['pseudoLegalCaptures_%s%s' % (x, _sfx) for x in ('pieces', 'kingpawns', 'tiled')]
+    CLAIMED += ['capturesAndChecks_%s%s' % (x, _sfx) for x in ('head', 'sliders', 'king', 'knights', 'pawns', 'tiled')]
     CLAIMED += ['checkEvasions_%s%s' % (x, _sfx) for x in ('head', 'pieces', 'pawns', 'tiled')]   # pieces: thorough tier (15 min each)
 CLAIMED += ['givesCheck']   # givesCheck: thorough tier only (6 cases, 10-36 min each)
 PROPERTIES = {'C01': CLAIMED}
@@ -742,7 +858,7 @@ ASSUMPTIONS = {'C01': [
 ]}
 NOT_DECIDED = {'C01': ['isLegal (verdict == playing the move): contract written, complete 12-way case split; the two king-move cases are discharged (24 and 42 min), the other cases did not finish in 50 min each: not claimed',
                        'removeIllegal (legality filter with the king-ray shortcut): not under contract; hence "the set treated as legal == the legal moves" is decided only up to the legality filter (pseudo-legal generation and the evasion candidates are exact)',
-                       'pseudoLegalCapturesAndChecks (over-approximating generator with discovered-check masks): not under contract',
+                       'pseudoLegalCapturesAndChecks: decided are "only pseudo-legal moves, none twice, every capture / en-passant capture / queen-or-knight promotion present"; that every CHECKING quiet move is present (direct and discovered checks) is NOT decided',
                        'sliding-attack magic tables, FEN text layer, MoveList capacity']}
 
 MUTANTS = [
@@ -764,6 +880,10 @@ MUTANTS = [
     dict(name='evasion_double_check_targets', file='lib/texellib/moveGen.cpp', pattern=r'\(\(kingThreats & \(kingThreats-1\)\) == 0\)', repl='((kingThreats & (kingThreats-1)) != 0)', groups=['checkEvasions_head_w']),
     dict(name='evasion_pawn_threat_colour', file='lib/texellib/moveGen.cpp', pattern=r'const U64 myPawnAttacks = wtm \? BitBoard::wPawnAttacks\(kingSq\) : BitBoard::bPawnAttacks\(kingSq\);', repl='const U64 myPawnAttacks = wtm ? BitBoard::bPawnAttacks(kingSq) : BitBoard::wPawnAttacks(kingSq);', groups=['checkEvasions_head_b']),
     dict(name='evasion_ep_dropped', file='lib/texellib/moveGen.cpp', pattern=r'm = \(pawns << 9\) & BitBoard::maskBToHFiles & \(\(pos.colorBB\(!wtm\) & validTargets\) \| epMask\);', repl='m = (pawns << 9) & BitBoard::maskBToHFiles & ((pos.colorBB(!wtm) | epMask) & validTargets);', groups=['checkEvasions_pawns_w']),
+    dict(name='cc_knight_captures_dropped', file='lib/texellib/moveGen.cpp', pattern=r'm &= \(pos.colorBB\(!wtm\) \| kKnightAtk\);', repl='m &= kKnightAtk;', groups=['capturesAndChecks_knights_w']),
+    dict(name='cc_pawn_ep_dropped', file='lib/texellib/moveGen.cpp', pattern=r'U64 m = \(pawns << 7\) & BitBoard::maskAToGFiles & \(pos.colorBB\(!wtm\) \| epMask\);', repl='U64 m = (pawns << 7) & BitBoard::maskAToGFiles & pos.colorBB(!wtm);', groups=['capturesAndChecks_pawns_w']),
+    dict(name='cc_king_own_capture', file='lib/texellib/moveGen.cpp', pattern=r'm &= \(\(discovered & \(1ULL<<sq\)\) == 0\) \? pos.colorBB\(!wtm\) : ~pos.colorBB\(wtm\);', repl='m &= ((discovered & (1ULL<<sq)) == 0) ? pos.colorBB(!wtm) : ~pos.colorBB(!wtm);', groups=['capturesAndChecks_king_b']),
+    dict(name='cc_rook_own_capture', file='lib/texellib/moveGen.cpp', pattern=r'm &= \(pos.colorBB\(!wtm\) \| kRookAtk\);\n        m &= ~pos.colorBB\(wtm\);', repl='m &= (pos.colorBB(!wtm) | kRookAtk);', groups=['capturesAndChecks_sliders_w']),
     dict(name='givesCheck_ep_discovered', file='lib/texellib/moveGen.cpp', pattern=r'                case 9: case 7: case -9: case -7:\n                    if \(nextPiece\(pos, epSq, d3\) == oKing\) \{', repl='                case 9: case 7: case -9:\n                    if (nextPiece(pos, epSq, d3) == oKing) {', groups=['givesCheck']),
     dict(name='givesCheck_castle_rook_file', file='lib/texellib/moveGen.cpp', pattern=r'            if \(nextPieceSafe\(pos, m.from\(\) \+ 1, wtm \? 8 : -8\) == oKing\)', repl='            if (nextPieceSafe(pos, m.from() + 2, wtm ? 8 : -8) == oKing)', groups=['givesCheck']),
     dict(name='givesCheck_pawn_direction', file='lib/texellib/moveGen.cpp', pattern=r'if \(\(\(d1 > 0\) == wtm\) && \(pos.getPiece\(m.to\(\) \+ d1\) == oKing\)\)', repl='if ((pos.getPiece(m.to() + d1) == oKing))', groups=['givesCheck']),
